@@ -50,3 +50,43 @@ Qed.
 Example mono_has_no_such_state :
   forall k t, k_ok Mono wpre wrest k t -> 4 <= k.
 Proof. intros k t H. unfold k_ok in H. vm_compute in H. lia. Qed.
+
+(* ---------------------------------------------------------------------------------------------------------------- *)
+(* F-C07-parity-truncated-before-content-save: for the PRE-SYNC content c0 kill_inv claims nothing (its `c = c0` case), and   *)
+(* indeed nothing holds: the parity is shrunk before the save that records the deletion.                               *)
+(* d1 holds a 2-block file, d2 a 3-block file (alone in stripe 2); d2's file is deleted; the sync dies right after the resize. *)
+Definition tc0 : content :=
+  mkC [Some (mkCD [mkCF 1 2048 100 0 11 false [mkFB SBlk 0 (HReal 1); mkFB SBlk 1 (HReal 2)]] [] [] []);
+       Some (mkCD [mkCF 2 3072 100 0 12 false [mkFB SBlk 0 (HReal 11); mkFB SBlk 1 (HReal 12); mkFB SBlk 2 (HReal 13)]] [] [] [])]
+      [Some (mkInfo 5 false false false); Some (mkInfo 5 false false false); Some (mkInfo 5 false false false)] 3.
+(* after the scan: the blocks of the deleted file are DELETED, the allocated size is 2 *)
+Definition tc1 : content :=
+  mkC [Some (mkCD [mkCF 1 2048 100 0 11 false [mkFB SBlk 0 (HReal 1); mkFB SBlk 1 (HReal 2)]] [] [] []);
+       Some (mkCD [] [(0, HInvalid); (1, HInvalid); (2, HInvalid)] [] [])]
+      [Some (mkInfo 5 false false false); Some (mkInfo 5 false false false); Some (mkInfo 5 false false false)] 3.
+Definition tfs : list (option fsdisk) := [Some [mkFF 1 2048 100 0 11 [1%N; 2%N]]; Some []].
+Definition tpar : parity := [[PEnc [1%N; 11%N]; PEnc [2%N; 12%N]; PEnc [0%N; 13%N]]].
+Definition ttrace : list mev := sync_trace hz 1024 1 wo 7 tfs (fun _ => []) (fun _ => false) (seq 0 3) None tc1 tpar.
+Definition tpre : list mev := firstn 1 ttrace.        (* [MResize 2] *)
+Definition trest : list mev := skipn 1 ttrace.        (* MSave tc1 :: ... *)
+Definition tcrash : dstate :=
+  mkDS (copies_at 1 tc0 tpre trest 0)
+       (map (fun l => level_state (scheds ttrace) (nth l (par_base tpar tpre) []) (nth l wks 0) (nth l wtorn false))
+            (seq 0 (length tpar))).
+
+Theorem kill_c0_parity_truncated :
+  crash_state Mono 1 tc0 tpar ttrace tcrash /\
+  ds_copies tcrash = [tc0] /\
+  recorded_healthy tc0 2 = true /\
+  nth 2 (nth 0 tpar []) PNone = PEnc [0%N; 13%N] /\
+  nth 2 (nth 0 (ds_par tcrash) []) PNone = PNone.
+Proof.
+  split.
+  - unfold tcrash. apply (CrashAt Mono 1 tc0 tpar ttrace tpre trest 0 wks wtorn).
+    + symmetry. apply firstn_skipn.
+    + reflexivity.
+    + reflexivity.
+    + intros l Hl. assert (El : l = 0) by (vm_compute in Hl; lia). subst l.
+      unfold k_ok. vm_compute. split; reflexivity.
+  - repeat split; vm_compute; reflexivity.
+Qed.
